@@ -51,6 +51,12 @@ class ChainBuilder:
                 self.emit(f, level + 1, '"""')
             else:
                 self.files[f].append("   " if level == 0 else "")
+        if self.allow_files and r.random() < 0.25:
+            # an import that completes before the fault leaves no entry behind
+            self.nfile += 1
+            okf = "ok%d" % self.nfile
+            self.files[okf] = ["STRING fine", "IF TRUE", "    STRING nested"]
+            self.emit(f, level, r.choice(["START ", "STARTENV ", "STARTCODE "]) + okf)
 
     def fault(self, f, level):
         r = self.r
@@ -96,7 +102,7 @@ class ChainBuilder:
             return [self.fault(f, level)]
         ks = ["if", "else", "repeat", "while", "func", "elif"]
         if self.allow_files:
-            ks += ["start", "startcode"]
+            ks += ["start", "startcode", "libfunc", "libfunc"]
         k = r.choice(ks)
         if k == "if":
             n = self.emit(f, level, "IF TRUE")
@@ -127,6 +133,21 @@ class ChainBuilder:
                 n = self.emit(f, level, "RUN")
                 m = self.emit(f, level + 1, name)
                 return [(f, n, m)] + rest
+            n = self.emit(f, level, "RUN " + name)
+            return [(f, n, n)] + rest
+        if k == "libfunc":
+            # a function defined in another file (imported before), run from here: its body's
+            # entries carry the defining file
+            self.nfile += 1
+            self.fn += 1
+            lib = "lib%d" % self.nfile
+            name = "g%d" % self.fn
+            self.files[lib] = []
+            self.pad(lib, 0)
+            self.emit(lib, 0, "FUNC " + name)
+            rest = self.build(lib, 1, depth - 1)
+            self.emit(f, level, r.choice(["STARTENV ", "START "]) + lib)
+            self.pad(f, level)
             n = self.emit(f, level, "RUN " + name)
             return [(f, n, n)] + rest
         # import
